@@ -316,7 +316,45 @@ def c02(cx):
                   ASSUME_CONN + ["the byte-to-structural-facts scanner of the harness is trusted (the grammar decision is TLA+'s)"])
 
 
-PROPS = {"C02": c02, "C09": c09, "C14": c14, "C16": c16, "C20": c20, "C10": c10, "C19": c19, "C12": c12, "C01": c01, "C13": c13, "C05": c05, "C06": c06, "C07": c07, "C08": c08, "C17": c17}
+def c03(cx):
+    build_harness(cx)
+    thorough = cx.tier == "thorough"
+    files = []
+    # (a) the reader itself: framing over arbitrary segmentations, and the accessor cursor
+    b1 = model_check(cx, "MC_PgReader", consts=({"MaxMsgs": 5} if thorough else None))
+    b2 = model_check(cx, "MC_PgReader", cfg="MC_PgReader_acc.cfg", consts=({"MaxBody": 6, "MaxOps": 5} if thorough else None))
+    for tag, b in (("frames", b1), ("access", b2)):
+        subsample(cx, b, 60000 if thorough else 6000)
+        sample_behaviours(cx, b, 1)
+        trace, crash = play(cx, b, "reader-" + tag, cmd="reader")
+        rejected = [] if crash else validate(cx, trace, "Trace_PgReader")
+        judge(cx, b, trace, rejected, crash, "Trace_PgReader", play_cmd="reader")
+        files.append(b)
+    # (b) the whole server: the same byte stream under five segmentations
+    g = gen_random(cx, "C03", 4000 if thorough else 300)
+    files.append(g)
+    sample_behaviours(cx, g, 1)
+    trace, crash = play(cx, g, "seg", cmd="segplay", extra=["-proj", "C03"])
+    rejected = [] if crash else validate(cx, trace, "Trace_PgConn")
+    judge(cx, g, trace, rejected, crash, "Trace_PgConn", play_cmd="segplay", play_extra=["-proj", "C03"])
+    count_distinct(cx, *files)
+    cx.cov["trusted_base"] = TB_CONN
+    return finish(cx, "model_checking",
+                  "(a) PgReader: TLC enumerates every sequence of up to MaxMsgs message sizes around the granule and the "
+                  "limit (oversized ones skipped chunk by chunk) and every body of up to MaxBody NUL/non-NUL cells with every "
+                  "sequence of up to MaxOps accessor calls (GetBytes 0..3, GetUint16, GetUint32, GetString), checking that the "
+                  "cursor never leaves the body; each is replayed on the real buffer.Reader over an io.Reader that delivers "
+                  "1 byte, random pieces or everything per read - accessor runs on two consecutive messages with the same "
+                  "body so that unread bytes of the first cannot leak into the second - and TLC validates every outcome "
+                  "(success iff enough bytes remain in THIS message, exactly the next bytes returned, sizes, errors, no "
+                  "panic). (b) server level: random sessions (simple, extended with surplus OIDs / row limits, COPY, "
+                  "unknown, stray and malformed messages) are executed five times - message by message, all at once, byte "
+                  "by byte, random cuts, cuts inside every header; each execution is validated by TLC against PgConn and "
+                  "the digest of its transcript (messages and callbacks in order) must equal that of the first.",
+                  ASSUME_CONN)
+
+
+PROPS = {"C03": c03, "C02": c02, "C09": c09, "C14": c14, "C16": c16, "C20": c20, "C10": c10, "C19": c19, "C12": c12, "C01": c01, "C13": c13, "C05": c05, "C06": c06, "C07": c07, "C08": c08, "C17": c17}
 
 
 def replay(cx, path):
